@@ -14,7 +14,7 @@ RULE = (
     "interleaved} x output container {plain, gz, bz2, xz, zst} x output layout {two files, interleaved} x output name "
     "{.fastq, .fq, .fasta, .fa} x cores {1, 2} x input format {FASTQ, FASTA}; single-end additionally standard output "
     "with and without --fasta. Sub-check 'sample': Hypothesis draws the input and 10 combinations; sub-check "
-    "'product' (sweep): the full product for fixed inputs. Oracles: metamorphic - the decompressed record streams are "
+    "'product' (sweep): the full product for fixed inputs; sub-check 'mixed': main output and --too-short/--too-long redirect files whose names ask for DIFFERENT formats in one run. Oracles: metamorphic - the decompressed record streams are "
     "identical to the baseline run (plain, two files, FASTQ, one core), interleaved == zip of the two files, FASTA "
     "gives the same names and sequences; format oracle - the first byte of the decompressed output is '>' for "
     ".fasta/.fa, '@' for .fastq/.fq, else the input format; the container matches the compression suffix. "
@@ -216,7 +216,92 @@ def sweep_product(spec):
         yield sc
 
 
+# ------------------------------------------------------------------- several outputs asking for different formats
+@st.composite
+def mixed_case(draw):
+    sc = draw(input_case("mixed"))
+    sc["f"] = {"m": str(draw(st.sampled_from([3, 6, 10])))}
+    if draw(st.booleans()):
+        sc["f"]["M"] = str(draw(st.sampled_from([12, 18])))
+    sc["mixed"] = {"main": draw(st.sampled_from(EXTS + [".txt"] + ([] if sc["paired"] else ["stdout"]))), "short": draw(st.sampled_from(EXTS)),
+                   "long": draw(st.sampled_from(EXTS)), "cont": draw(st.sampled_from(OUT_CONT)),
+                   "cores": draw(st.sampled_from([1, 2]))}
+    return sc
+
+
+def check_mixed(sc, ctx):
+    """Every output file of one run gets the format its OWN name asks for (else the input format), and the
+    records do not depend on which formats the other outputs have."""
+    mx = sc["mixed"]
+    paired = sc["paired"]
+    sfx = SUFFIX[mx["cont"]]
+    base = scen.flatten(scen.mod_tokens(sc)) + scen.flatten(scen.filter_tokens(sc))
+    if mx["cores"] > 1:
+        base = ["-j", "2", "--buffer-size", "600"] + base
+    files, names = scen.input_files(sc)
+
+    def run(main_ext, short_ext, long_ext):
+        args = list(base)
+        outs = {}
+        if main_ext == "stdout":
+            if paired:
+                args.append("--interleaved")
+        elif paired:
+            args += ["-o", "o1" + main_ext + sfx, "-p", "o2" + main_ext + sfx]
+            outs["main"] = ["o1" + main_ext + sfx, "o2" + main_ext + sfx]
+        else:
+            args += ["-o", "oo" + main_ext + sfx]
+            outs["main"] = ["oo" + main_ext + sfx]
+        if paired and main_ext != "stdout":
+            args += ["--too-short-output", "s1" + short_ext + sfx, "--too-short-paired-output", "s2" + short_ext + sfx]
+            outs["short"] = ["s1" + short_ext + sfx, "s2" + short_ext + sfx]
+        else:
+            args += ["--too-short-output", "ss" + short_ext + sfx]
+            outs["short"] = ["ss" + short_ext + sfx]
+        if "M" in sc["f"]:
+            if paired and main_ext != "stdout":
+                args += ["--too-long-output", "l1" + long_ext + sfx, "--too-long-paired-output", "l2" + long_ext + sfx]
+                outs["long"] = ["l1" + long_ext + sfx, "l2" + long_ext + sfx]
+            else:
+                args += ["--too-long-output", "ll" + long_ext + sfx]
+                outs["long"] = ["ll" + long_ext + sfx]
+        r = cli.run(args + names, files)
+        if r.exit != 0:
+            raise Violation(f"run failed: {args + names}: exit={r.exit} {r.errors} {r.tb}", tag="run-failed")
+        res = {}
+        for key, fl in outs.items():
+            res[key] = [cli.parse_records(cli.decompress(r.files[n])) if n in r.files else None for n in fl]
+        if main_ext == "stdout":
+            res["main"] = [cli.parse_records(r.stdout)]
+        return args + names, res
+
+    args, got = run(mx["main"], mx["short"], mx["long"])
+    _, ref = run(".fastq", ".fastq", ".fastq")
+    want = {"main": mx["main"], "short": mx["short"], "long": mx["long"]}
+    for key, lst in got.items():
+        ext = want[key]
+        exp_fmt = "fasta" if ext in (".fasta", ".fa") else "fastq"  # unknown names / stdout: the input format (FASTQ)
+        for k, item in enumerate(lst):
+            if item is None:
+                raise Violation(f"output of category {key} missing ({args})")
+            fmt, recs = item
+            if fmt is not None and fmt != exp_fmt:
+                raise Violation(f"{key} output (name {ext}) was written as {fmt}; its own name asks for {exp_fmt}; the "
+                                f"other outputs are named {want} ({args})", observed=fmt, expected=exp_fmt, tag="format")
+            refrecs = ref[key][k][1]
+            a = [(n, s_) for n, s_, _ in recs]
+            b = [(n, s_) for n, s_, _ in refrecs]
+            if a != b:
+                raise Violation(f"records of the {key} output differ from the all-FASTQ run ({args})", observed=a[:4], expected=b[:4])
+    ctx.label("cores:%d" % mx["cores"])
+    ctx.label("main:" + mx["main"])
+    if len({want["main"] in (".fasta", ".fa"), want["short"] in (".fasta", ".fa")}) == 2:
+        ctx.label("main-and-redirect-differ")
+        ctx.nontrivial_case({"args": args})
+
+
 SUBS = {
+    "mixed": Sub(strategy=lambda tier: mixed_case(), check=check_mixed),
     "sample": Sub(strategy=lambda tier: input_case("sample"), check=check_sample),
     "product": Sub(check=check_sample, sweep=sweep_product),
 }
@@ -224,7 +309,9 @@ SUBS = {
 
 def plan(tier):
     if tier == "quick":
-        return [{"sub": "sample", "kind": "hyp", "examples": 60} for _ in range(8)] + \
+        return [{"sub": "sample", "kind": "hyp", "examples": 60} for _ in range(7)] + \
+               [{"sub": "mixed", "kind": "hyp", "examples": 150} for _ in range(3)] + \
                [{"sub": "product", "kind": "sweep", "input": i % 3, "part": i, "of": 8, "limit": 60} for i in range(8)]
     return [{"sub": "sample", "kind": "hyp", "examples": 1500} for _ in range(6)] + \
+           [{"sub": "mixed", "kind": "hyp", "examples": 4000} for _ in range(3)] + \
            [{"sub": "product", "kind": "sweep", "input": i % 3, "part": i // 3, "of": 4} for i in range(12)]
